@@ -1579,6 +1579,18 @@ def canonical_models(profile):
                         "in": [l["name"] for l in d["layers"]], "kw": {}, "q": {}})
     d["out"] = "cat"
     ms.append(d)
+    # data-independent po2 quantizers in quadratic mode on kernels / biases that
+    # contain exact zeros (constructed weights)
+    d = _desc([3], [
+        ("QDense", {"units": 2, "use_bias": True},
+         {"kernel_quantizer": {"q": "quantized_po2",
+                               "kw": {"bits": 2, "quadratic_approximation": True}},
+          "bias_quantizer": {"q": "quantized_relu_po2",
+                             "kw": {"bits": 3, "quadratic_approximation": True}},
+          "activation": None})], "vec", 22)
+    d["weights"] = {"c1_qdense": {"0": [[0.0, 0.75], [-1.5, 0.0], [0.3, -0.6]],
+                                  "1": [0.0, 0.8]}}
+    ms.append(d)
     # data-independent {0,1} binary codes (alpha = 1: only use_01 matters)
     ms.append(_desc([4], [
         ("QDense", {"units": 3, "use_bias": True},
